@@ -126,12 +126,12 @@ func readTree(root string) Files {
 // genCLIChain produces an honest chain through CLI invocations and returns a verify scenario.
 func genCLIChain(r *Runner, rng *Rng, seq int) (Case, bool) {
 	base := filepath.Join(scratch(), fmt.Sprintf("cli%d", seq))
-	os.RemoveAll(base)
+	safeRemoveAll(base)
 	work, meta, keysDir := filepath.Join(base, "work"), filepath.Join(base, "meta"), filepath.Join(base, "keys")
 	for _, d := range []string{work, meta, keysDir} {
 		os.MkdirAll(d, 0o755)
 	}
-	defer os.RemoveAll(base)
+	defer safeRemoveAll(base)
 	w := newWorld()
 	owner := pool()[[]int{4, 2, 5}[rng.Intn(3)]]
 	ownerPriv, ownerPub := writeKeyFiles(keysDir, owner, "owner")
@@ -506,7 +506,7 @@ func init() {
 	}})
 	regOp(&Op{Name: "climatch", Impl: func(a map[string]any) any {
 		base := filepath.Join(scratch(), "climp")
-		os.RemoveAll(base)
+		safeRemoveAll(base)
 		os.MkdirAll(base, 0o755)
 		link := intoto.Link{Type: "link", Name: "s", Materials: map[string]intoto.HashObj{}, Products: map[string]intoto.HashObj{}, ByProducts: map[string]interface{}{}, Command: []string{}, Environment: map[string]interface{}{}}
 		if pm, ok := a["products"].(map[string]any); ok {
